@@ -188,6 +188,35 @@ def run(ctx):
                       ": other workers may still run the borrowed closure (use after return)"))
         ctx.extra["r1_panicky_sites_checked"] = n_sites
 
+    # the worker-side closure's result send is what the caller waits for: after it the worker touches nothing that came out of the
+    # lifetime-erased closure (its captures, its result, state it handed back) - a value of caller-chosen type dropped AFTER the
+    # send may run its destructor when execute_task has already returned and the borrowed data is gone
+    from ..analysis import ty_mentions_user
+    et_b = prog.one("threadpool::ThreadPool::execute_task")
+    n_send = 0
+    if et_b is not None:
+        for cl in prog.closures_of(et_b):
+            sends = [(bb, t) for bb, t in cl.calls() if t["callee"].get("method") == "send" and "oneshot" in callee_key(t["callee"]) and not cl.blocks[bb].cleanup]
+            for sbb, st_ in sends:
+                n_send += 1
+                after = cl.successors_reach(sbb, unwind=False)
+                late = []
+                for x in sorted(after):
+                    blk = cl.blocks[x]
+                    if blk.cleanup:
+                        continue
+                    t = blk.term
+                    if t["k"] == "drop" and t["ty"].get("needs_drop") and ty_mentions_user(t["ty"]):
+                        late.append(f"drop {t['ty']['s'][:40]}@{cl.loc(t.get('span'))}")
+                    if t["k"] == "call" and callee_key(t["callee"]) in ("std::mem::drop", "core::mem::drop") and \
+                            any(ty_mentions_user(ta) and ta.get("needs_drop", True) for ta in t["callee"].get("targs", [])):
+                        late.append(f"drop(..)@{cl.loc(t['span'])}")
+                    if t["k"] == "call" and (uc.direct(cl, x) or ("",))[0] in ("P", "U1-generic", "U1-dyn", "U4-fnptr"):
+                        late.append(f"user call@{cl.loc(t['span'])}")
+                ctx.ob("R1.scope-obligation", f"worker-closure.send-is-last#{n_send}", not late, cl.loc(st_["span"]),
+                       f"user-typed values destroyed / user code run by the worker after the result was sent: {late or 'none'}")
+    if n_send == 0:
+        ctx.missing("R1.scope-obligation", "the worker-side result send in ThreadPool::execute_task")
     builder_rules(ctx, prog)
     # ---------------- R2 / R3
     ex = prog.one("run_configured::ConfiguredRun::execute_on")
